@@ -587,4 +587,512 @@ theorem inv_runEvs {s : S} (sc : Script) (evs : List Ev) (hi : Inv s) : Inv (run
   | nil => exact hi
   | cons e es ih => exact ih (inv_step sc e hi)
 
+
+/-! ### second invariant: pipe contents vs counters, closed handles, freshness -/
+
+def cntFor (s : S) (L h : Nat) : Nat := (s.pipes L).countP (fun m => m.h = h)
+
+/-- `d h` = messages for `h` already taken out of the pipe but not yet counted in `dispatched`
+(non-zero only in the middle of `dispatchMsg`). -/
+structure AuxG (d : Nat → Nat) (s : S) : Prop where
+  own : ∀ L, ∀ m ∈ s.pipes L, (s.hs m.h).loop = L ∧ m.sig ≠ 0
+  cnt : ∀ h, (s.hs h).caught = (s.hs h).dispatched + cntFor s (s.hs h).loop h + d h
+  closedDone : ∀ h, (s.hs h).closed = true → cntFor s (s.hs h).loop h + d h = 0 ∧ (s.hs h).closing = true
+  cq : ∀ L, ∀ h ∈ s.closingQ L, (s.hs h).closing = true
+  fresh : s.stale = false →
+    (∀ L, ∀ m ∈ s.pipes L, m.sig = (s.hs m.h).signum → m.gen = (s.hs m.h).gen) ∧
+    (∀ h sig L mg hg, Cb.signal h sig L mg hg ∈ s.trace → mg = hg)
+
+abbrev Aux (s : S) : Prop := AuxG (fun _ => 0) s
+
+theorem aux_init (loopOf : Nat → Nat) : Aux (init loopOf) := by
+  refine ⟨by simp [init], by simp [init, cntFor], by simp [init], by simp [init], by simp [init]⟩
+
+theorem aux_frame {d : Nat → Nat} {s s' : S} (ha : AuxG d s) (hp : s'.pipes = s.pipes)
+    (hf : ∀ j, (s'.hs j).loop = (s.hs j).loop ∧ (s'.hs j).caught = (s.hs j).caught ∧
+      (s'.hs j).dispatched = (s.hs j).dispatched ∧ (s'.hs j).closed = (s.hs j).closed ∧
+      ((s.hs j).closing = true → (s'.hs j).closing = true))
+    (hcq : ∀ L, ∀ h ∈ s'.closingQ L, (s'.hs h).closing = true)
+    (hfr : s'.stale = false →
+      (∀ L, ∀ m ∈ s.pipes L, m.sig = (s'.hs m.h).signum → m.gen = (s'.hs m.h).gen) ∧
+      (∀ h sig L mg hg, Cb.signal h sig L mg hg ∈ s'.trace → mg = hg)) : AuxG d s' := by
+  refine ⟨?_, ?_, ?_, hcq, ?_⟩
+  · intro L m hm; rw [hp] at hm; rw [(hf m.h).1]; exact ha.own L m hm
+  · intro h; obtain ⟨h1, h2, h3, _, _⟩ := hf h
+    unfold cntFor; rw [hp, h1, h2, h3]; exact ha.cnt h
+  · intro h hc; obtain ⟨h1, _, _, h4, h5⟩ := hf h
+    rw [h4] at hc; have := ha.closedDone h hc
+    unfold cntFor at this ⊢; rw [hp, h1]; exact ⟨this.1, h5 this.2⟩
+  · intro hs; rw [hp]; exact hfr hs
+
+theorem sigStop_hs {s : S} {h : Nat} (e : (s.hs h).signum ≠ 0) :
+    (sigStop s h).hs = upd s.hs h { s.hs h with signum := 0 } := by
+  simp only [sigStop, e, ↓reduceIte]; split <;> (try split) <;> rfl
+
+theorem sigStop_fields (s : S) (h : Nat) :
+    (sigStop s h).trace = s.trace ∧ (sigStop s h).pipes = s.pipes ∧ (sigStop s h).ncb = s.ncb ∧
+    (sigStop s h).closingQ = s.closingQ ∧ (sigStop s h).stale = s.stale := by
+  unfold sigStop; simp only
+  split
+  · exact ⟨rfl, rfl, rfl, rfl, rfl⟩
+  · split <;> (try split) <;> exact ⟨rfl, rfl, rfl, rfl, rfl⟩
+
+theorem aux_sigStop {d : Nat → Nat} {s : S} (h : Nat) (ha : AuxG d s) : AuxG d (sigStop s h) := by
+  by_cases e : (s.hs h).signum = 0
+  · rw [sigStop_noop e]; exact ha
+  obtain ⟨ft, fp, _, fq, fs⟩ := sigStop_fields s h
+  have hhs := sigStop_hs e
+  have hj : ∀ j, (sigStop s h).hs j = if j = h then { s.hs h with signum := 0 } else s.hs j := by
+    intro j; rw [hhs]; rfl
+  refine aux_frame ha fp ?_ ?_ ?_
+  · intro j; rw [hj]; split
+    · rename_i e; subst e; simp
+    · simp
+  · intro L k hk; rw [fq] at hk; rw [hj]; split
+    · rename_i e; subst e; exact ha.cq L k hk
+    · exact ha.cq L k hk
+  · intro hst; rw [fs] at hst; obtain ⟨f1, f2⟩ := ha.fresh hst
+    refine ⟨?_, by rw [ft]; exact f2⟩
+    intro L m hm; rw [hj]; split
+    · intro e2; exact absurd e2 (ha.own L m hm).2
+    · exact f1 L m hm
+
+theorem aux_insert {d : Nat → Nat} {s : S} (ha : AuxG d s) (h sig : Nat) (os : Bool)
+    (tr : List Key) (d' : Nat → Disp) (dl' : Nat → Bool) :
+    AuxG d { s with hs := upd s.hs h { s.hs h with signum := sig, oneshot := os, gen := (s.hs h).gen + 1 },
+                    tree := tr, disp := d', delivered := dl', stale := s.stale || pendingSame s h sig } := by
+  refine aux_frame ha rfl ?_ ?_ ?_
+  · intro j; simp only [upd_apply]; split
+    · rename_i e; subst e; simp
+    · simp
+  · intro L k hk; simp only [upd_apply]; split
+    · rename_i e; subst e; exact ha.cq L k hk
+    · exact ha.cq L k hk
+  · intro hst
+    simp only [Bool.or_eq_false_iff] at hst
+    obtain ⟨f1, f2⟩ := ha.fresh hst.1
+    refine ⟨?_, f2⟩
+    intro L m hm; simp only [upd_apply]; split
+    · rename_i e; intro e2; exfalso
+      have hl := (ha.own L m hm).1; rw [e] at hl
+      have := hst.2; unfold pendingSame at this
+      rw [hl] at this
+      have := List.any_eq_false.1 this m hm
+      simp [e, e2] at this
+    · exact f1 L m hm
+
+theorem sigStart_shape (s : S) (h sig : Nat) (os : Bool) :
+    (sigStart s h sig os).1 = s ∨ (sigStart s h sig os).1 = sigStop s h ∨
+    ∃ tr d' dl', (sigStart s h sig os).1 =
+      { sigStop s h with
+        hs := upd (sigStop s h).hs h { (sigStop s h).hs h with signum := sig, oneshot := os, gen := ((sigStop s h).hs h).gen + 1 },
+        tree := tr, disp := d', delivered := dl',
+        stale := (sigStop s h).stale || pendingSame (sigStop s h) h sig } := by
+  unfold sigStart
+  split
+  · exact Or.inl rfl
+  split
+  · exact Or.inl rfl
+  generalize sigStop s h = s1
+  simp only
+  cases hf : firstHandle s1.tree sig with
+  | none =>
+    simp only [Bool.true_and]; split
+    · exact Or.inr (Or.inl rfl)
+    · exact Or.inr (Or.inr ⟨_, _, _, rfl⟩)
+  | some f =>
+    simp only; split
+    · exact Or.inr (Or.inl rfl)
+    · split
+      · exact Or.inr (Or.inr ⟨_, _, _, rfl⟩)
+      · exact Or.inr (Or.inr ⟨_, _, _, rfl⟩)
+
+theorem aux_sigStart {d : Nat → Nat} {s : S} (h sig : Nat) (os : Bool) (ha : AuxG d s) :
+    AuxG d (sigStart s h sig os).1 := by
+  rcases sigStart_shape s h sig os with e | e | ⟨tr, d', dl', e⟩
+  · rw [e]; exact ha
+  · rw [e]; exact aux_sigStop h ha
+  · rw [e]; exact aux_insert (aux_sigStop h ha) h sig os tr d' dl'
+
+theorem aux_uvClose {d : Nat → Nat} {s : S} (h : Nat) (ha : AuxG d s) : AuxG d (uvClose s h) := by
+  unfold uvClose
+  have h1 := aux_sigStop h ha
+  generalize sigStop s h = s1 at h1
+  refine aux_frame h1 rfl ?_ ?_ ?_
+  · intro j; simp only [upd_apply]; split
+    · rename_i e; subst e; simp
+    · simp
+  · intro L k hk
+    by_cases ek : k = h
+    · subst ek; simp
+    · simp only [upd_apply, ek, ↓reduceIte]
+      simp only [upd_apply] at hk
+      split at hk
+      · rcases List.mem_cons.1 hk with e | hk
+        · exact absurd e ek
+        · exact h1.cq _ k hk
+      · exact h1.cq L k hk
+  · intro hst; obtain ⟨f1, f2⟩ := h1.fresh hst
+    refine ⟨?_, f2⟩
+    intro L m hm; simp only [upd_apply]; split
+    · rename_i e; have := f1 L m hm; rw [e] at this; exact this
+    · exact f1 L m hm
+
+theorem aux_applyOp {d : Nat → Nat} {s : S} (o : Op) (ha : AuxG d s) : AuxG d (applyOp s o).1 := by
+  unfold applyOp
+  split
+  · exact ha
+  cases o with
+  | start h sig => exact aux_sigStart h sig false ha
+  | oneshot h sig => exact aux_sigStart h sig true ha
+  | stop h => exact aux_sigStop h ha
+  | close h => exact aux_uvClose h ha
+
+theorem aux_runOps {d : Nat → Nat} {s : S} (os : List Op) (ha : AuxG d s) : AuxG d (runOps s os) := by
+  induction os generalizing s with
+  | nil => exact ha
+  | cons o os ih => exact ih (aux_applyOp o ha)
+
+
+/-! enqueue / deliver -/
+
+theorem countP_append_single (l : List Msg) (x : Msg) (p : Msg → Bool) :
+    (l ++ [x]).countP p = l.countP p + (if p x then 1 else 0) := by
+  simp [List.countP_append, List.countP_cons]
+
+theorem aux_enqueue {s : S} (sig : Nat) (k : Key) (ha : Aux s) (hsig : sig ≠ 0)
+    (hncl : (s.hs k.id).closed = false) : Aux (enqueue sig s k) := by
+  have hj : ∀ j, (enqueue sig s k).hs j = if j = k.id then { s.hs k.id with caught := (s.hs k.id).caught + 1 } else s.hs j := by
+    intro j; rfl
+  have hloop : ∀ j, ((enqueue sig s k).hs j).loop = (s.hs j).loop := by
+    intro j; rw [hj]; split
+    · rename_i e; rw [e]
+    · rfl
+  have hpipe : ∀ L, (enqueue sig s k).pipes L =
+      if L = (s.hs k.id).loop then s.pipes L ++ [⟨k.id, sig, (s.hs k.id).gen⟩] else s.pipes L := by
+    intro L; simp only [enqueue, upd_apply]; split
+    · rename_i e; rw [e]
+    · rfl
+  refine ⟨?_, ?_, ?_, ?_, ?_⟩
+  · intro L m hm; rw [hloop]; rw [hpipe] at hm
+    by_cases eL : L = (s.hs k.id).loop
+    · subst eL
+      simp only [↓reduceIte] at hm
+      rcases List.mem_append.1 hm with hm | hm
+      · exact ha.own _ m hm
+      · simp only [List.mem_singleton] at hm; subst hm; exact ⟨rfl, hsig⟩
+    · simp only [eL, ↓reduceIte] at hm; exact ha.own L m hm
+  · intro j
+    have hc := ha.cnt j
+    unfold cntFor at hc ⊢
+    rw [hloop, hpipe, hj]
+    by_cases ej : j = k.id
+    · subst ej; simp only [↓reduceIte, countP_append_single, decide_true]; omega
+    · simp only [ej, ↓reduceIte]
+      split
+      · rw [countP_append_single]
+        have : ¬ (k.id = j) := fun e => ej e.symm
+        simp only [this, decide_false, Bool.false_eq_true, ↓reduceIte]; omega
+      · exact hc
+  · intro j hc
+    have ej : j ≠ k.id := by
+      intro e; subst e; rw [hj] at hc; simp [hncl] at hc
+    rw [hj] at hc ⊢; simp only [ej, ↓reduceIte] at hc ⊢
+    have := ha.closedDone j hc
+    unfold cntFor at this ⊢
+    rw [hpipe]; split
+    · rw [countP_append_single]
+      have : ¬ (k.id = j) := fun e => ej e.symm
+      simp only [this, decide_false, Bool.false_eq_true, ↓reduceIte]; assumption
+    · exact this
+  · intro L j hq; rw [hj]; split
+    · rename_i e; subst e; exact ha.cq L _ hq
+    · exact ha.cq L j hq
+  · intro hst; obtain ⟨f1, f2⟩ := ha.fresh hst
+    refine ⟨?_, f2⟩
+    intro L m hm
+    have hsg : ∀ j, ((enqueue sig s k).hs j).signum = (s.hs j).signum ∧ ((enqueue sig s k).hs j).gen = (s.hs j).gen := by
+      intro j; rw [hj]; split
+      · rename_i e; rw [e]; exact ⟨rfl, rfl⟩
+      · exact ⟨rfl, rfl⟩
+    rw [(hsg m.h).1, (hsg m.h).2]
+    rw [hpipe] at hm; split at hm
+    · rcases List.mem_append.1 hm with hm | hm
+      · exact f1 L m hm
+      · simp only [List.mem_singleton] at hm; subst hm; intro _; rfl
+    · exact f1 L m hm
+
+theorem aux_foldl_enqueue {s : S} (sig : Nat) (ks : List Key) (ha : Aux s)
+    (hk : ∀ k ∈ ks, sig ≠ 0 ∧ (s.hs k.id).closed = false) : Aux (ks.foldl (enqueue sig) s) := by
+  induction ks generalizing s with
+  | nil => exact ha
+  | cons k ks ih =>
+    have hk0 := hk k (by simp)
+    refine ih (aux_enqueue sig k ha hk0.1 hk0.2) ?_
+    intro k' hk'
+    have := hk k' (by simp [hk'])
+    refine ⟨this.1, ?_⟩
+    show ((enqueue sig s k).hs k'.id).closed = false
+    simp only [enqueue, upd_apply]; split
+    · rename_i e; rw [← e]; exact this.2
+    · exact this.2
+
+theorem aux_deliver {s : S} (sig : Nat) (hi : Inv s) (ha : Aux s) : Aux (deliver s sig) := by
+  unfold deliver
+  split
+  · exact ha
+  rename_i reset hd
+  have hsub : ∀ k ∈ handlerTargets s.tree sig, sig ≠ 0 ∧ (s.hs k.id).closed = false := by
+    intro k hk; rw [handlerTargets_eq_filter sig hi.sorted] at hk
+    simp only [List.mem_filter, decide_eq_true_eq] at hk
+    have hkey := hi.key k hk.1
+    have hsg : (s.hs k.id).signum ≠ 0 := by
+      have := hkey.2; rw [hkey.1] at this; simpa [keyOf] using this
+    refine ⟨by rw [← hk.2]; exact hkey.2, ?_⟩
+    cases hc : (s.hs k.id).closed
+    · rfl
+    · exact absurd (hi.closing k.id (ha.closedDone k.id hc).2) hsg
+  cases reset
+  · simp only [Bool.false_eq_true, ↓reduceIte]
+    refine aux_foldl_enqueue sig _ ?_ hsub
+    exact aux_frame ha rfl (fun _ => ⟨rfl, rfl, rfl, rfl, id⟩) ha.cq ha.fresh
+  · simp only [↓reduceIte]
+    refine aux_foldl_enqueue sig _ ?_ hsub
+    exact aux_frame ha rfl (fun _ => ⟨rfl, rfl, rfl, rfl, id⟩) ha.cq ha.fresh
+
+
+/-! dispatch -/
+
+def debt (h : Nat) : Nat → Nat := fun j => if j = h then 1 else 0
+
+theorem aux_pop {s : S} {L : Nat} {m : Msg} {rest : List Msg} (ha : Aux s) (hp : s.pipes L = m :: rest) :
+    AuxG (debt m.h) { s with pipes := upd s.pipes L rest } := by
+  have hown := ha.own L m (by rw [hp]; simp)
+  have hpipe : ∀ L', ({ s with pipes := upd s.pipes L rest } : S).pipes L' = if L' = L then rest else s.pipes L' := fun _ => rfl
+  have hsub : ∀ L' x, x ∈ ({ s with pipes := upd s.pipes L rest } : S).pipes L' → x ∈ s.pipes L' := by
+    intro L' x hx; rw [hpipe] at hx; split at hx
+    · rename_i e; rw [e, hp]; simp [hx]
+    · exact hx
+  have hcount : ∀ j, cntFor { s with pipes := upd s.pipes L rest } (s.hs j).loop j + debt m.h j = cntFor s (s.hs j).loop j := by
+    intro j; unfold cntFor debt; rw [hpipe]
+    by_cases eL : (s.hs j).loop = L
+    · simp only [eL, ↓reduceIte, hp, List.countP_cons, decide_eq_true_eq]
+      by_cases ej : j = m.h
+      · subst ej; simp
+      · have : ¬ m.h = j := fun e => ej e.symm
+        simp [ej, this]
+    · simp only [eL, ↓reduceIte]
+      have : j ≠ m.h := by intro e; subst e; exact eL hown.1
+      simp [this]
+  refine ⟨?_, ?_, ?_, ha.cq, ?_⟩
+  · intro L' x hx; exact ha.own L' x (hsub L' x hx)
+  · intro j; have := ha.cnt j; have := hcount j; simp only at *; omega
+  · intro j hc; have h1 := ha.closedDone j hc; have h2 := hcount j; simp only at *; exact ⟨by omega, h1.2⟩
+  · intro hst; obtain ⟨f1, f2⟩ := ha.fresh hst
+    exact ⟨fun L' x hx => f1 L' x (hsub L' x hx), f2⟩
+
+theorem aux_pay {s : S} {h : Nat} (ha : AuxG (debt h) s) :
+    Aux { s with hs := upd s.hs h { s.hs h with dispatched := (s.hs h).dispatched + 1 } } := by
+  have hj : ∀ j, ({ s with hs := upd s.hs h { s.hs h with dispatched := (s.hs h).dispatched + 1 } } : S).hs j =
+      if j = h then { s.hs h with dispatched := (s.hs h).dispatched + 1 } else s.hs j := fun _ => rfl
+  refine ⟨?_, ?_, ?_, ?_, ?_⟩
+  · intro L m hm; rw [hj]; split
+    · rename_i e; have := ha.own L m hm; rw [e] at this; exact this
+    · exact ha.own L m hm
+  · intro j; have := ha.cnt j; unfold cntFor debt at *; rw [hj]
+    by_cases e : j = h
+    · subst e; simp only [↓reduceIte] at this ⊢; omega
+    · simp only [e, ↓reduceIte] at this ⊢; omega
+  · intro j hc; rw [hj] at hc ⊢; unfold cntFor debt at *
+    by_cases e : j = h
+    · subst e; simp only [↓reduceIte] at hc ⊢
+      have := ha.closedDone j hc; simp at this
+    · simp only [e, ↓reduceIte] at hc ⊢
+      have := ha.closedDone j hc; simp only [e, ↓reduceIte] at this; exact this
+  · intro L j hq; rw [hj]; split
+    · rename_i e; subst e; exact ha.cq L _ hq
+    · exact ha.cq L j hq
+  · intro hst; obtain ⟨f1, f2⟩ := ha.fresh hst
+    refine ⟨?_, f2⟩
+    intro L m hm; rw [hj]; split
+    · rename_i e; have := f1 L m hm; rw [e] at this; exact this
+    · exact f1 L m hm
+
+theorem aux_dispatchStep {s : S} (sc : Script) {L : Nat} {m : Msg} {rest : List Msg} (ha : Aux s)
+    (hp : s.pipes L = m :: rest) : Aux (dispatchMsg sc { s with pipes := upd s.pipes L rest } L m) := by
+  have hpop := aux_pop ha hp
+  have hmfresh : s.stale = false → m.sig = (s.hs m.h).signum → m.gen = (s.hs m.h).gen :=
+    fun hst => (ha.fresh hst).1 L m (by rw [hp]; simp)
+  unfold dispatchMsg
+  simp only
+  have step1 : AuxG (debt m.h) (if m.sig = (s.hs m.h).signum then
+      runOps { s with pipes := upd s.pipes L rest, trace := .signal m.h m.sig L m.gen (s.hs m.h).gen :: s.trace, ncb := s.ncb + 1 } (sc s.ncb)
+    else { s with pipes := upd s.pipes L rest }) := by
+    split
+    · rename_i hm
+      apply aux_runOps
+      refine aux_frame hpop rfl (fun _ => ⟨rfl, rfl, rfl, rfl, id⟩) hpop.cq ?_
+      intro hst; obtain ⟨f1, f2⟩ := hpop.fresh hst
+      refine ⟨f1, ?_⟩
+      intro h sig L' mg hg hin
+      rcases List.mem_cons.1 hin with e | hin
+      · simp only [Cb.signal.injEq] at e; obtain ⟨_, _, _, rfl, rfl⟩ := e; exact hmfresh hst hm
+      · exact f2 h sig L' mg hg hin
+    · exact hpop
+  generalize (if m.sig = (s.hs m.h).signum then
+      runOps { s with pipes := upd s.pipes L rest, trace := .signal m.h m.sig L m.gen (s.hs m.h).gen :: s.trace, ncb := s.ncb + 1 } (sc s.ncb)
+    else { s with pipes := upd s.pipes L rest }) = s1 at step1
+  have step2 := aux_pay step1
+  split
+  · exact aux_sigStop _ step2
+  · exact step2
+
+theorem aux_dispatchN {s : S} (sc : Script) (n L : Nat) (ha : Aux s) : Aux (dispatchN sc n s L) := by
+  induction n generalizing s with
+  | zero => exact ha
+  | succ n ih =>
+    unfold dispatchN
+    split
+    · exact ha
+    · rename_i m rest hp; exact ih (aux_dispatchStep sc ha hp)
+
+/-! closing -/
+
+theorem aux_finishClose {s : S} (h : Nat) (ha : Aux s) (hc : (s.hs h).closing = true) : Aux (finishClose s h) := by
+  unfold finishClose
+  simp only
+  split
+  · refine aux_frame ha rfl (fun _ => ⟨rfl, rfl, rfl, rfl, id⟩) ?_ ha.fresh
+    intro L k hk; simp only [upd_apply] at hk; split at hk
+    · rcases List.mem_cons.1 hk with e | hk
+      · rw [e]; exact hc
+      · exact ha.cq _ k hk
+    · exact ha.cq L k hk
+  · rename_i hle
+    have hj : ∀ j, ({ s with hs := upd s.hs h { s.hs h with closed := true }, trace := Cb.close h :: s.trace } : S).hs j =
+        if j = h then { s.hs h with closed := true } else s.hs j := fun _ => rfl
+    have hcnt := ha.cnt h
+    refine ⟨?_, ?_, ?_, ?_, ?_⟩
+    · intro L m hm; rw [hj]; split
+      · rename_i e; have := ha.own L m hm; rw [e] at this; exact this
+      · exact ha.own L m hm
+    · intro j; have := ha.cnt j; unfold cntFor at *; rw [hj]; split
+      · rename_i e; subst e; exact this
+      · exact this
+    · intro j hcl; rw [hj] at hcl ⊢; unfold cntFor at *
+      by_cases e : j = h
+      · subst e; simp only [↓reduceIte]; exact ⟨by omega, hc⟩
+      · simp only [e, ↓reduceIte] at hcl ⊢; exact ha.closedDone j hcl
+    · intro L j hq; rw [hj]; split
+      · rename_i e; subst e; exact hc
+      · exact ha.cq L j hq
+    · intro hst; obtain ⟨f1, f2⟩ := ha.fresh hst
+      refine ⟨?_, ?_⟩
+      · intro L m hm; rw [hj]; split
+        · rename_i e; have := f1 L m hm; rw [e] at this; exact this
+        · exact f1 L m hm
+      · intro h' sig L mg hg hin
+        rcases List.mem_cons.1 hin with e | hin
+        · cases e
+        · exact f2 h' sig L mg hg hin
+
+theorem finishClose_closing (s : S) (h j : Nat) : (s.hs j).closing = true → ((finishClose s h).hs j).closing = true := by
+  intro hc; unfold finishClose; simp only; split
+  · exact hc
+  · simp only [upd_apply]; split
+    · rename_i e; rw [e] at hc; exact hc
+    · exact hc
+
+theorem aux_foldl_finishClose {s : S} (q : List Nat) (ha : Aux s) (hq : ∀ h ∈ q, (s.hs h).closing = true) :
+    Aux (q.foldl finishClose s) := by
+  induction q generalizing s with
+  | nil => exact ha
+  | cons k ks ih =>
+    refine ih (aux_finishClose k ha (hq k (by simp))) ?_
+    intro h hh; exact finishClose_closing s k h (hq h (by simp [hh]))
+
+theorem aux_runClosing {s : S} (L : Nat) (ha : Aux s) : Aux (runClosing s L) := by
+  unfold runClosing
+  refine aux_foldl_finishClose _ ?_ (fun h hh => ha.cq L h hh)
+  refine aux_frame ha rfl (fun _ => ⟨rfl, rfl, rfl, rfl, id⟩) ?_ ha.fresh
+  intro L' k hk; simp only [upd_apply] at hk; split at hk
+  · simp at hk
+  · exact ha.cq L' k hk
+
+theorem aux_step {s : S} (sc : Script) (e : Ev) (hi : Inv s) (ha : Aux s) : Aux (step sc s e) := by
+  cases e with
+  | op o => exact aux_applyOp o ha
+  | deliver sig => exact aux_deliver sig hi ha
+  | dispatch L => exact aux_dispatchN sc _ L ha
+  | runClosing L => exact aux_runClosing L ha
+  | run L =>
+    simp only [step, runLoop]; split
+    · exact aux_runClosing L (aux_dispatchN sc _ L ha)
+    · exact ha
+
+theorem aux_runEvs {s : S} (sc : Script) (evs : List Ev) (hi : Inv s) (ha : Aux s) : Aux (runEvs sc s evs) := by
+  unfold runEvs
+  induction evs generalizing s with
+  | nil => exact ha
+  | cons e es ih => exact ih (inv_step sc e hi) (aux_step sc e hi ha)
+
+
+/-! counting lemmas for the end-to-end `fanout` statement -/
+
+theorem enqueue_hs_other (sig : Nat) (s : S) (k : Key) (j : Nat) :
+    ((enqueue sig s k).hs j).loop = (s.hs j).loop ∧ ((enqueue sig s k).hs j).gen = (s.hs j).gen ∧
+    ((enqueue sig s k).hs j).signum = (s.hs j).signum ∧
+    ((enqueue sig s k).hs j).caught = (s.hs j).caught + (if k.id = j then 1 else 0) := by
+  simp only [enqueue, upd_apply]
+  by_cases e : j = k.id
+  · subst e; simp
+  · have : ¬ k.id = j := fun e2 => e e2.symm
+    simp [e, this]
+
+theorem foldl_enqueue_caught (sig : Nat) (ks : List Key) (s : S) (j : Nat) :
+    ((ks.foldl (enqueue sig) s).hs j).caught = (s.hs j).caught + ks.countP (fun k => k.id = j) := by
+  induction ks generalizing s with
+  | nil => simp
+  | cons k ks ih =>
+    simp only [List.foldl_cons, List.countP_cons, decide_eq_true_eq]
+    rw [ih, (enqueue_hs_other sig s k j).2.2.2]; omega
+
+theorem foldl_enqueue_pipes (sig : Nat) (ks : List Key) (s : S) (L : Nat) :
+    (ks.foldl (enqueue sig) s).pipes L =
+      s.pipes L ++ (ks.filter (fun k => (s.hs k.id).loop = L)).map (fun k => ⟨k.id, sig, (s.hs k.id).gen⟩) := by
+  induction ks generalizing s with
+  | nil => simp
+  | cons k ks ih =>
+    simp only [List.foldl_cons]
+    rw [ih]
+    have h1 : (fun k' : Key => decide (((enqueue sig s k).hs k'.id).loop = L)) = (fun k' : Key => decide ((s.hs k'.id).loop = L)) := by
+      funext k'; rw [(enqueue_hs_other sig s k k'.id).1]
+    have h2 : (fun k' : Key => (⟨k'.id, sig, ((enqueue sig s k).hs k'.id).gen⟩ : Msg)) = (fun k' : Key => ⟨k'.id, sig, (s.hs k'.id).gen⟩) := by
+      funext k'; rw [(enqueue_hs_other sig s k k'.id).2.1]
+    rw [h1, h2]
+    have hp : (enqueue sig s k).pipes L = if L = (s.hs k.id).loop then s.pipes L ++ [⟨k.id, sig, (s.hs k.id).gen⟩] else s.pipes L := by
+      simp only [enqueue, upd_apply]; split
+      · rename_i e; rw [e]
+      · rfl
+    rw [hp, List.filter_cons]
+    by_cases e : (s.hs k.id).loop = L
+    · simp [e]
+    · have : ¬ L = (s.hs k.id).loop := fun e2 => e e2.symm
+      simp [e, this]
+
+theorem countP_id_nodup (l : List Key) (hn : l.Nodup) (a : Key) (h : Nat) (ha : a.id = h)
+    (huniq : ∀ k ∈ l, k.id = h → k = a) : l.countP (fun k => k.id = h) = if a ∈ l then 1 else 0 := by
+  induction l with
+  | nil => simp
+  | cons x xs ih =>
+    have hx := List.nodup_cons.1 hn
+    have ih' := ih hx.2 (fun k hk => huniq k (by simp [hk]))
+    rw [List.countP_cons, ih']
+    by_cases e : x.id = h
+    · have : x = a := huniq x (by simp) e
+      subst this
+      simp [e, hx.1]
+    · have : ¬ a = x := by intro e2; subst e2; exact e ha
+      simp [e, this]
+
 end UvModel.Signal
